@@ -1,5 +1,5 @@
 (* C20 -- the IoBox device behaves as a memory.  Property theorems only. *)
-From TV Require Import Base Model.IoBox Proofs.IoBoxP.
+From TV Require Import Base Model.IoBox Proofs.IoBoxP Model.PyLib Gen.SourceFuns Proofs.GenIoBoxP.
 
 (* writes stay invisible to reads until the next update *)
 Theorem C20_invisible : forall b a v a', read (write b a v) a' = read b a'.
@@ -46,3 +46,13 @@ Example C20_example :
   = [RW; RW; RR None; RU [(2%positive, 5%Z); (1%positive, 10%Z); (1%positive, 20%Z)];
      RR (Some 20%Z); RR (Some 5%Z); RR None].
 Proof. vm_compute. reflexivity. Qed.
+
+(* the tie to the source: the model IS IoBoxDevice -- write, read and update of Model/IoBox.v are the translations of
+   the three methods, regenerated from /repo by the function translator (harness/gen_funs.py) on every run *)
+Theorem C20_model_is_source : forall (b : box) a v (inputs : writes),
+  gen_iobox_write (mem b) (buf b) a v = buf (write b a v) /\
+  gen_iobox_read (mem b) (buf b) a = read b a /\
+  gen_iobox_update (mem b) (buf b) inputs = (buf (fst (update b inputs)), mem (fst (update b inputs)), (snd (update b inputs), None)).
+Proof.
+  intros b a v inputs. split; [apply iobox_write_is_source|]. split; [apply iobox_read_is_source | apply iobox_update_is_source].
+Qed.
